@@ -1,1 +1,122 @@
-//! cfg(kani) child module of `crates/core/src/commands/forget.rs` (harnesses to be added)
+//! C09 harness: cfg(kani) child module of `commands/forget.rs`.
+//! `KeepOptions::matches` is proved against the rule table of the property for ALL counter values,
+//! ALL outcomes of the eight period predicates (stubbed by symbolic booleans, i.e. the harness sees
+//! only their contracts, which Verus proves separately), has_next and presence of `last`.
+//! keep_within*, keep_ids and keep_tags are empty here (stated restriction).  The contract checks the
+//! NUMBER of reasons (kept iff > 0) and every counter's post-state; it does not read the reason strings
+//! (dereferencing the Vec<&str> buffer made the CBMC formula exceed 30 GB).
+use super::*;
+use crate::repofile::snapshotfile::{DeleteOption, SnapshotId};
+use crate::repofile::snapshotfile::StringList;
+use crate::blob::tree::TreeId;
+use std::sync::atomic::{AtomicBool, Ordering};
+
+static P_MINUTE: AtomicBool = AtomicBool::new(false);
+static P_HOUR: AtomicBool = AtomicBool::new(false);
+static P_DAY: AtomicBool = AtomicBool::new(false);
+static P_WEEK: AtomicBool = AtomicBool::new(false);
+static P_MONTH: AtomicBool = AtomicBool::new(false);
+static P_QUARTER: AtomicBool = AtomicBool::new(false);
+static P_HALF: AtomicBool = AtomicBool::new(false);
+static P_YEAR: AtomicBool = AtomicBool::new(false);
+
+fn s_minute(_a: &SnapshotFile, _b: &SnapshotFile) -> bool { P_MINUTE.load(Ordering::SeqCst) }
+fn s_hour(_a: &SnapshotFile, _b: &SnapshotFile) -> bool { P_HOUR.load(Ordering::SeqCst) }
+fn s_day(_a: &SnapshotFile, _b: &SnapshotFile) -> bool { P_DAY.load(Ordering::SeqCst) }
+fn s_week(_a: &SnapshotFile, _b: &SnapshotFile) -> bool { P_WEEK.load(Ordering::SeqCst) }
+fn s_month(_a: &SnapshotFile, _b: &SnapshotFile) -> bool { P_MONTH.load(Ordering::SeqCst) }
+fn s_quarter(_a: &SnapshotFile, _b: &SnapshotFile) -> bool { P_QUARTER.load(Ordering::SeqCst) }
+fn s_half(_a: &SnapshotFile, _b: &SnapshotFile) -> bool { P_HALF.load(Ordering::SeqCst) }
+fn s_year(_a: &SnapshotFile, _b: &SnapshotFile) -> bool { P_YEAR.load(Ordering::SeqCst) }
+
+fn snap(t: &Zoned) -> SnapshotFile {
+    SnapshotFile {
+        time: t.clone(),
+        program_version: String::new(),
+        parent: None,
+        parents: Vec::new(),
+        tree: TreeId::default(),
+        label: String::new(),
+        paths: StringList::default(),
+        hostname: String::new(),
+        username: String::new(),
+        uid: 0,
+        gid: 0,
+        tags: StringList::default(),
+        original: None,
+        delete: DeleteOption::NotSet,
+        summary: None,
+        description: None,
+        id: SnapshotId::default(),
+    }
+}
+
+#[kani::proof]
+#[kani::unwind(34)]
+#[kani::stub(equal_minute, s_minute)]
+#[kani::stub(equal_hour, s_hour)]
+#[kani::stub(equal_day, s_day)]
+#[kani::stub(equal_week, s_week)]
+#[kani::stub(equal_month, s_month)]
+#[kani::stub(equal_quarter_year, s_quarter)]
+#[kani::stub(equal_half_year, s_half)]
+#[kani::stub(equal_year, s_year)]
+fn c09_matches_rule_table() {
+    let same: [bool; 9] = [false, kani::any(), kani::any(), kani::any(), kani::any(), kani::any(), kani::any(), kani::any(), kani::any()];
+    P_MINUTE.store(same[1], Ordering::SeqCst);
+    P_HOUR.store(same[2], Ordering::SeqCst);
+    P_DAY.store(same[3], Ordering::SeqCst);
+    P_WEEK.store(same[4], Ordering::SeqCst);
+    P_MONTH.store(same[5], Ordering::SeqCst);
+    P_QUARTER.store(same[6], Ordering::SeqCst);
+    P_HALF.store(same[7], Ordering::SeqCst);
+    P_YEAR.store(same[8], Ordering::SeqCst);
+
+    let c0: [Option<i32>; 9] = [kani::any(), kani::any(), kani::any(), kani::any(), kani::any(), kani::any(), kani::any(), kani::any(), kani::any()];
+    let mut k = KeepOptions::default();
+    k.keep_last = c0[0];
+    k.keep_minutely = c0[1];
+    k.keep_hourly = c0[2];
+    k.keep_daily = c0[3];
+    k.keep_weekly = c0[4];
+    k.keep_monthly = c0[5];
+    k.keep_quarter_yearly = c0[6];
+    k.keep_half_yearly = c0[7];
+    k.keep_yearly = c0[8];
+
+    let t = Zoned::default();
+    let sn = snap(&t);
+    let prev = snap(&t);
+    let has_next: bool = kani::any();
+    let have_last: bool = kani::any();
+    let last = if have_last { Some(&prev) } else { None };
+
+    let r = k.matches(&sn, last, has_next, &t);
+    // the returned &str borrow `k`: copy out what is compared, then release the borrow
+    let rlen = r.len();
+    core::mem::forget(r);
+
+    let c1: [Option<i32>; 9] = [k.keep_last, k.keep_minutely, k.keep_hourly, k.keep_daily, k.keep_weekly, k.keep_monthly, k.keep_quarter_yearly, k.keep_half_yearly, k.keep_yearly];
+    let mut j = 0usize;
+    let mut i = 0usize;
+    while i < 9 {
+        // a rule fires for the newest snapshot of a period: no older snapshot follows, or there is no
+        // newer one to compare with, or the newer one lies in a different period
+        let fired = !has_next || !have_last || !same[i];
+        let expect_reason = fired && matches!(c0[i], Some(n) if n != 0);
+        if expect_reason {
+            j += 1;
+        }
+        match c0[i] {
+            Some(n) if n > 0 && fired => assert!(c1[i] == Some(n - 1), "a positive counter is used up by one"),
+            other => assert!(c1[i] == other, "counter unchanged (None, 0, negative = keep all, or rule not fired)"),
+        }
+        i += 1;
+    }
+    assert!(j == rlen, "exactly one reason per rule that fired with a live counter (so: kept iff some rule applies)");
+    kani::cover!(rlen == 9);
+    kani::cover!(rlen == 0 && has_next && have_last);
+    core::mem::forget(sn);
+    core::mem::forget(prev);
+}
+
